@@ -70,7 +70,8 @@ Example c06_nonvacuous :
   find_arg_optimal y (mkRel [y] [PInf; PInf]) Min = Ok ([0; 1], PInf) /\
   find_arg_optimal y (mkRel [y] [Fin 4294967296; Fin 2147483648]) Min = Ok ([1], Fin 2147483648) /\
   optimal_cost_value x Max = Ok (1, Fin 4) /\
-  dsa_evaluate x VB Min [(1, 1)] [c] 7 true true 1 = Ok (Some 1).
+  dsa_evaluate x VB Min [(1, 1)] [c] 7 true true 1 = Ok (Some 1) /\
+  dsatuto_evaluate x Min [(1, 1)] [c] 7 true = Ok (Some 3).
 Proof.
   split.
   - intros v Hv c0 [<-|[]]. repeat split.
